@@ -9,7 +9,7 @@ from simv import boot  # noqa: F401  (installs the parser stub and imports the r
 from simv.model.exec import FaultError, peek
 from simv.model.schema import print_sdl
 
-from tartiflette import Resolver, Scalar, Subscription, TartifletteError, TypeResolver, create_engine
+from tartiflette import Directive, Resolver, Scalar, Subscription, TartifletteError, TypeResolver, create_engine
 from tartiflette.constants import UNDEFINED_VALUE
 from tartiflette.language.ast import IntValueNode, StringValueNode
 from tartiflette.resolver.default import gather_arguments_coercer, sync_arguments_coercer
@@ -144,6 +144,8 @@ class XStr:
     def coerce_output(self, value):
         if not isinstance(value, str):
             raise TypeError("XStr cannot represent %r" % (value,))
+        if value == "nil":
+            return None  # a scalar may serialise a value to null: then the position is null
         return "x:" + value
 
     def coerce_input(self, value):
@@ -240,8 +242,27 @@ ENGINE_CONFIGS = [
 ]
 
 
-async def cook(schema, name, cfg=None, sdl=None, **extra):
+MARK_SDL = "\ndirective @mark(k: Int!) on FIELD\n"
+
+
+def register_mark(name):
+    """A query-side directive whose effect depends on its (variable) argument: odd k fails the field."""
+    class Mark:
+        async def on_field_execution(self, da, nxt, parent, args, ctx, info):
+            rt = _rt_of(ctx)
+            if rt is not None:
+                rt.loop.ev("hook", rt.rid, "mark", da.get("k"))
+            if isinstance(da.get("k"), int) and da["k"] % 2:
+                raise UserError("mark %r refuses" % (da["k"],))
+            return await nxt(parent, args, ctx, info)
+
+    Directive("mark", schema_name=name)(Mark())
+
+
+async def cook(schema, name, cfg=None, sdl=None, pre=None, **extra):
     cfg = cfg or {}
+    if pre is not None:
+        pre(name)
     register_bundle(schema, name, type_as_object=cfg.get("type_as_object", False))
     kw = dict(extra)
     if cfg.get("lc") is not None:
